@@ -18,8 +18,9 @@ class Com:    # comment (// or /* */), own token class
 
 
 class Def:    # `define NAME[(params)] [body]
-    def __init__(self, name, body=None, params=None):
-        self.name, self.body, self.params = name, body, params
+    def __init__(self, name, body=None, params=None, body_items=None):
+        # body_items: abstract program equivalent to the body text (for bodies containing directives)
+        self.name, self.body, self.params, self.body_items = name, body, params, body_items
 
 
 class Undef:
@@ -37,13 +38,13 @@ class Use:    # `NAME[(args)]
 
 
 class Cond:   # `ifdef/`ifndef chain
-    def __init__(self, neg, branches, els=None):
-        self.neg, self.branches, self.els = neg, branches, els
+    def __init__(self, neg, branches, els=None, end_sep='\n'):
+        self.neg, self.branches, self.els, self.end_sep = neg, branches, els, end_sep
 
 
 class Inc:    # `include "f" | <f> | `MACRO
-    def __init__(self, fname, style='"'):
-        self.fname, self.style = fname, style
+    def __init__(self, fname, style='"', sep='\n'):
+        self.fname, self.style, self.sep = fname, style, sep
 
 
 class Kept:   # directive kept verbatim (timescale, celldefine, ...)
@@ -88,6 +89,7 @@ def render(items, r=None):
             if it.params is not None:
                 head += '(' + ','.join(p if d is None else '%s=%s' % (p, d) for p, d in it.params) + ')'
             it.off = r.emit(head)
+            it.head_end = r.pos
             if it.body is not None:
                 r.emit(' ')
                 it.body_off = r.emit(it.body)
@@ -121,7 +123,7 @@ def render(items, r=None):
             else:
                 s = '`include `%s' % it.style
             it.off = r.emit(s)
-            r.emit('\n')
+            r.emit(it.sep)
         elif isinstance(it, Cond):
             for i, (name, body) in enumerate(it.branches):
                 kw = ('`ifndef ' if it.neg else '`ifdef ') if i == 0 else '`elsif '
@@ -130,7 +132,7 @@ def render(items, r=None):
             if it.els is not None:
                 r.emit('`else\n')
                 render(it.els, r)
-            r.emit('`endif\n')
+            r.emit('`endif' + it.end_sep)
         else:
             raise TypeError(it)
     return r.text() if top else None
@@ -163,6 +165,12 @@ class RefState:
         self.out = []
         self.depth_inc = 0
         self.quirks = set()
+        self.files = {}          # path -> items (abstract program of that file)
+        self.exists = None       # callable path -> bool|z3
+        self.include_paths = []
+        self.last_item_line = None
+        self.last_include_line = None
+        self.opened = []
 
 
 def ref_defined(st, name):
@@ -213,12 +221,15 @@ def ref_eval(st, items, file, files=None, strip=False, expander=None, ignore_inc
             st.out.append(Tok(x.tok, ('src', file, x.off)))
         elif isinstance(x, Com):
             if not strip:
-                toks = split_ws(x.text)
-                for t in toks:
-                    st.out.append(Tok(t, ('com', file, x.off)))
+                pos = 0
+                for t in split_ws(x.text):
+                    k = x.text.index(t, pos)
+                    pos = k + len(t)
+                    st.out.append(Tok(t, ('com', file, x.off + len(x.text[:k].encode('utf-8')))))
         elif isinstance(x, Def):
             if x.name not in PREDEFINED:
                 st.table[x.name] = (True, {'body': x.body, 'file': file, 'body_off': getattr(x, 'body_off', None),
+                                           'head_end': getattr(x, 'head_end', None), 'body_items': x.body_items,
                                            'params': x.params, 'name': x.name, 'src': 'text'})
             text = '`define ' + x.name
             if x.params is not None:
@@ -273,24 +284,37 @@ def ref_eval(st, items, file, files=None, strip=False, expander=None, ignore_inc
                 ref_eval(st, taken, file, files, strip, expander, ignore_include, include_paths)
         elif isinstance(x, Inc):
             if ignore_include:
+                if x.style not in ('"', '<'):
+                    # macro-named file: the usage is still expanded as an ordinary macro usage
+                    raise RuntimeError('ignore_include with macro-named include: not in the reference')
                 continue
-            raise RuntimeError('Inc needs the include reference (ppref_inc)')
+            ref_include(st, x, file, strip, expander, include_paths)
         else:
             raise TypeError(x)
 
 
 def simple_expander(st, use, v, file, strip):
-    """object-like macro whose body is a whitespace-separated token list without directives"""
-    body = v['body']
+    """object-like macro: body is a token list, or an abstract program (body_items) when it contains
+    directives; the expansion is preprocessed again with the table in force (IEEE 22.5.1)"""
     if v.get('params'):
         raise RuntimeError('simple_expander: function-like macro')
-    for t in split_ws(body):
-        st.out.append(Tok(t, ('macro', v.get('file'), v.get('body_off'))))
+    prov = ('macro', v.get('file'), v.get('head_end'))
+    paren = ''
     if use.args is not None:
-        # `X() with an object-like macro: the parenthesis text is restored after the body
-        s = '(' + ','.join('' if a is None else a for a in use.args) + ')'
-        for t in split_ws(s):
-            st.out.append(Tok(t, ('macro', v.get('file'), v.get('body_off'))))
+        # `X() with an object-like macro: the parenthesis text is restored right after the body
+        paren = '(' + ','.join('' if a is None else a for a in use.args) + ')'
+    if v.get('body_items') is not None:
+        sub = RefState(st.it, st.table)
+        sub.files, sub.exists, sub.include_paths, sub.quirks = st.files, st.exists, st.include_paths, st.quirks
+        ref_eval(sub, v['body_items'], file, None, strip, simple_expander, False, st.include_paths)
+        st.table = sub.table
+        for t in sub.out:
+            st.out.append(Tok(t.text, prov))
+        for t in split_ws(paren):
+            st.out.append(Tok(t, prov))
+        return
+    for t in split_ws(v['body'] + paren):
+        st.out.append(Tok(t, prov))
 
 
 def table_from_case(case, info):
@@ -316,3 +340,56 @@ def table_from_case(case, info):
             t[name] = (True, {'body': a.get('text'), 'file': None, 'body_off': None,
                               'params': [tuple(p) for p in a.get('args', [])] or None, 'name': name, 'src': 'caller'})
     return t
+
+
+def path_join(base, p):
+    if p.startswith('/'):
+        return p
+    if base == '':
+        return p
+    if base.endswith('/'):
+        return base + p
+    return base + '/' + p
+
+
+def ref_exists(st, path):
+    e = st.exists(path)
+    if e is True or e is False:
+        return e
+    return st.it.decide(e, 'ref_exists:' + path)
+
+
+def ref_include(st, x, file, strip, expander, include_paths):
+    """`include: splice the preprocessed content of the named file (IEEE 22.4 + property C10)"""
+    if x.style in ('"', '<'):
+        fname = x.fname
+    else:
+        # file named through a macro: its body is the quoted file name
+        if not ref_defined(st, x.style):
+            raise RefError('DefineNotFound', x.style)
+        v = ref_value(st, x.style)
+        fname = '' if (v is None or v.get('body') is None) else v['body'].strip().strip('"')
+    p = fname
+    if not p.startswith('/') and not ref_exists(st, p):
+        for ip in st.include_paths:
+            np = path_join(ip, p)
+            if ref_exists(st, np):
+                p = np
+                break
+    st.opened.append(p)
+    if not ref_exists(st, p):
+        raise RefError('Include', ('File', p))
+    body = st.files.get(p)
+    if body is None:
+        raise RuntimeError('reference has no program for file %s' % p)
+    if body == 'INVALID_UTF8':
+        raise RefError('Include', ('ReadUtf8', p))
+    st.depth_inc += 1
+    if st.depth_inc > 65:
+        raise RefError('Include', ('ExceedRecursiveLimit', None))
+    try:
+        ref_eval(st, body, p, None, strip, expander, False, st.include_paths)
+    except RefError as e:
+        raise RefError('Include', (e.variant, e.name))
+    finally:
+        st.depth_inc -= 1
